@@ -112,6 +112,11 @@ class Bidding:
                     lbidder.add(e.target)
                 if e.kind == 'store' and len(e.keys) == 2 and e.value is not None:
                     table.add(e.target)
+        if len(xs) != 1 or len(xxs) != 1:
+            # fall back on how contract() fills the Contract fields x / xx
+            fx, fxx = self._flags_from_contract()
+            xs = xs if len(xs) == 1 else fx
+            xxs = xxs if len(xxs) == 1 else fxx
         for name, s in (('x flag', xs), ('xx flag', xxs), ('last bid', lbid), ('last bidder', lbidder),
                         ('first-to-name table', table)):
             if len(s) != 1:
@@ -141,6 +146,25 @@ class Bidding:
         self.kinds = kinds
         self.illegal, self.accept = illegal, accept
         self.raising = [p for p in self.paths if kinds[id(p)] == 'raise']
+
+    def _flags_from_contract(self):
+        xs, xxs = set(), set()
+        try:
+            cpaths = self.summ.paths(CLS, 'contract')
+        except AnalysisError:
+            return xs, xxs
+        cc = self.repo.cls('Contract', self.rule)
+        fields = [n for n in cc.order if n in cc.annots]
+        for p in cpaths:
+            v = p.end[1] if p.end and p.end[0] == 'return' else None
+            if isinstance(v, ast.Call) and ast.unparse(v.func) == 'Contract':
+                got = dict(zip(fields, v.args))
+                got.update({k.arg: k.value for k in v.keywords})
+                if attr_key(got.get('x')):
+                    xs.add(attr_key(got['x']))
+                if attr_key(got.get('xx')):
+                    xxs.add(attr_key(got['xx']))
+        return xs, xxs
 
     # -- which calls can take a path (guards that mention only the call) ----------------------------
     def bidset(self, p: Path) -> set:
